@@ -906,7 +906,7 @@ impl VecModel {
                                 continue;
                             }
                             for hint in [0u8, 1, 2] {
-                                for mode in [0u8, 3] {
+                                for mode in [0u8, 2, 3] {
                                     acts.push(VAct::Splice { r, n: k, hint, mode });
                                 }
                             }
